@@ -254,6 +254,15 @@ func (m *Machine) binop(op token.Token, a, b Value, ta, tb types.Type) Value {
 		case token.NEQ:
 			return Bool{c.Not(m.ropeEq(x.R, y.R))}
 		}
+	case ByteArr:
+		y := b.(ByteArr)
+		eq := m.ropeEq(x.R, y.R)
+		if op == token.EQL {
+			return Bool{eq}
+		}
+		if op == token.NEQ {
+			return Bool{c.Not(eq)}
+		}
 	case Ptr:
 		y := b.(Ptr)
 		eq := m.ptrEq(x, y)
